@@ -61,9 +61,14 @@ pub type ZRd = ZoneRecordData<Octs, Nm>;
 pub enum Tier {
     /// 1-3 values per field, nothing longer than 255 octets.
     Compact,
-    /// Full menus for types with <= 4 fields, 2-3 values per field else.
+    /// The DESIGN menus in full (u8 {0,1,255}, u16 {0,1,255,256,65535},
+    /// u32 {0,1,2^31,2^32-1}, 4 names, octets {0,1,255,max,max+1}, 7
+    /// bitmaps, charstr {0,2,255,256}); 2-3 values per field only for types
+    /// with more than 7 fields (RRSIG).
     Quick,
-    /// Full menus everywhere.
+    /// Full menus everywhere, and for types with at most 7 fields extended
+    /// ones (two more u8/u16/u32 values, three more names: wildcard,
+    /// 63-octet label, labels with '.', NUL and 0xFF).
     Thorough,
 }
 
@@ -508,8 +513,1249 @@ fn prod(sizes: &[usize], mut f: impl FnMut(&[usize])) {
     crate::product(sizes, |i| f(i));
 }
 
-include!("rgen_types.rs");
-include!("rgen_opt.rs");
+//------------ per-type generators ---------------------------------------------
+
+/// All type generators, in a fixed order.
+pub fn generators() -> Vec<TypeGen> {
+    macro_rules! g {
+        ($m:expr, $t:expr, $z:expr, $f:expr) => {
+            TypeGen { mnemonic: $m, rtype: $t, zone: $z, gen: $f }
+        };
+    }
+    vec![
+        g!("A", 1, true, gen_a),
+        g!("AAAA", 28, true, gen_aaaa),
+        g!("NS", 2, true, |m, s| gen_name1(m, s, |n| Rd::Ns(rdata::Ns::new(n)))),
+        g!("MD", 3, true, |m, s| gen_name1(m, s, |n| Rd::Md(rdata::Md::new(n)))),
+        g!("MF", 4, true, |m, s| gen_name1(m, s, |n| Rd::Mf(rdata::Mf::new(n)))),
+        g!("CNAME", 5, true, |m, s| gen_name1(m, s, |n| Rd::Cname(rdata::Cname::new(n)))),
+        g!("MB", 7, true, |m, s| gen_name1(m, s, |n| Rd::Mb(rdata::Mb::new(n)))),
+        g!("MG", 8, true, |m, s| gen_name1(m, s, |n| Rd::Mg(rdata::Mg::new(n)))),
+        g!("MR", 9, true, |m, s| gen_name1(m, s, |n| Rd::Mr(rdata::Mr::new(n)))),
+        g!("PTR", 12, true, |m, s| gen_name1(m, s, |n| Rd::Ptr(rdata::Ptr::new(n)))),
+        g!("DNAME", 39, true, |m, s| gen_name1(m, s, |n| Rd::Dname(rdata::Dname::new(n)))),
+        g!("MINFO", 14, true, |m, s| gen_name2(m, s, |a, b| Rd::Minfo(rdata::Minfo::new(a, b)))),
+        g!("RP", 17, true, |m, s| gen_name2(m, s, |a, b| Rd::Rp(rdata::Rp::new(a, b)))),
+        g!("MX", 15, true, gen_mx),
+        g!("SOA", 6, true, gen_soa),
+        g!("TXT", 16, true, gen_txt),
+        g!("HINFO", 13, true, gen_hinfo),
+        g!("NULL", 10, false, gen_null),
+        g!("SRV", 33, true, gen_srv),
+        g!("NAPTR", 35, true, gen_naptr),
+        g!("CAA", 257, true, gen_caa),
+        g!("DS", 43, true, |m, s| gen_ds(m, s, false)),
+        g!("CDS", 59, true, |m, s| gen_ds(m, s, true)),
+        g!("DNSKEY", 48, true, |m, s| gen_dnskey(m, s, false)),
+        g!("CDNSKEY", 60, true, |m, s| gen_dnskey(m, s, true)),
+        g!("RRSIG", 46, true, gen_rrsig),
+        g!("NSEC", 47, true, gen_nsec),
+        g!("NSEC3", 50, true, gen_nsec3),
+        g!("NSEC3PARAM", 51, true, gen_nsec3param),
+        g!("SVCB", 64, true, |m, s| gen_svcb(m, s, false)),
+        g!("HTTPS", 65, true, |m, s| gen_svcb(m, s, true)),
+        g!("TLSA", 52, true, gen_tlsa),
+        g!("SSHFP", 44, true, gen_sshfp),
+        g!("IPSECKEY", 45, true, gen_ipseckey),
+        g!("OPENPGPKEY", 61, true, gen_openpgpkey),
+        g!("ZONEMD", 63, true, gen_zonemd),
+        g!("TSIG", 250, false, gen_tsig),
+        g!("OPT", 41, false, gen_opt),
+        g!("TYPE65280", 65280, true, |m, s| gen_unknown(m, s, 65280)),
+        g!("TYPE99", 99, true, |m, s| gen_unknown(m, s, 99)),
+        g!("TYPE65535", 65535, true, |m, s| gen_unknown(m, s, 65535)),
+    ]
+}
+
+fn addrs4(m: &Menus) -> Vec<[u8; 4]> {
+    if m.tier == Tier::Compact {
+        vec![[192, 0, 2, 1], [192, 0, 2, 2]]
+    } else {
+        vec![[0, 0, 0, 0], [1, 2, 3, 4], [255, 255, 255, 255]]
+    }
+}
+
+fn addrs6(m: &Menus) -> Vec<[u8; 16]> {
+    let mut a = [0u8; 16];
+    for (i, b) in a.iter_mut().enumerate() {
+        *b = (i as u8) * 16 + 1;
+    }
+    if m.tier == Tier::Compact {
+        vec![a]
+    } else {
+        vec![[0; 16], a, [255; 16]]
+    }
+}
+
+fn gen_a(m: &Menus, s: &mut Sink) {
+    for a in addrs4(m) {
+        if !s.want() {
+            continue;
+        }
+        let mut r = Ref::new();
+        r.raw("addr", &a);
+        s.offer(r, || Ok(Rd::A(rdata::A::new(Ipv4Addr::from(a)))));
+    }
+    // the second constructor
+    if m.tier != Tier::Compact && s.want() {
+        let mut r = Ref::new();
+        r.raw("addr(from_octets)", &[9, 8, 7, 6]);
+        s.offer(r, || Ok(Rd::A(rdata::A::from_octets(9, 8, 7, 6))));
+    }
+}
+
+fn gen_aaaa(m: &Menus, s: &mut Sink) {
+    for a in addrs6(m) {
+        if !s.want() {
+            continue;
+        }
+        let mut r = Ref::new();
+        r.raw("addr", &a);
+        s.offer(r, || Ok(Rd::Aaaa(rdata::Aaaa::new(Ipv6Addr::from(a)))));
+    }
+}
+
+fn gen_name1(m: &Menus, s: &mut Sink, mk: fn(Nm) -> Rd) {
+    for n in m.names(1) {
+        if !s.want() {
+            continue;
+        }
+        let mut r = Ref::new();
+        let n = r.name("name", &n);
+        s.offer(r, || Ok(mk(n)));
+    }
+}
+
+fn gen_name2(m: &Menus, s: &mut Sink, mk: fn(Nm, Nm) -> Rd) {
+    let ns = m.names(2);
+    prod(&[ns.len(), ns.len()], |i| {
+        if !s.want() {
+            return;
+        }
+        let mut r = Ref::new();
+        let a = r.name("n1", &ns[i[0]]);
+        let b = r.name("n2", &ns[i[1]]);
+        s.offer(r, || Ok(mk(a, b)));
+    });
+}
+
+fn gen_mx(m: &Menus, s: &mut Sink) {
+    let (ps, ns) = (m.u16s(2), m.names(2));
+    prod(&[ps.len(), ns.len()], |i| {
+        if !s.want() {
+            return;
+        }
+        let mut r = Ref::new();
+        let p = r.u16("pref", ps[i[0]]);
+        let n = r.name("exchange", &ns[i[1]]);
+        s.offer(r, || Ok(Rd::Mx(rdata::Mx::new(p, n))));
+    });
+}
+
+fn gen_soa(m: &Menus, s: &mut Sink) {
+    let (ns, us) = (m.names(7), m.u32s(7));
+    prod(&[ns.len(), ns.len(), us.len(), us.len(), us.len(), us.len(), us.len()], |i| {
+        if !s.want() {
+            return;
+        }
+        let mut r = Ref::new();
+        let mname = r.name("mname", &ns[i[0]]);
+        let rname = r.name("rname", &ns[i[1]]);
+        let serial = r.u32("serial", us[i[2]]);
+        let refresh = r.u32("refresh", us[i[3]]);
+        let retry = r.u32("retry", us[i[4]]);
+        let expire = r.u32("expire", us[i[5]]);
+        let minimum = r.u32("minimum", us[i[6]]);
+        s.offer(r, || {
+            Ok(Rd::Soa(rdata::Soa::new(
+                mname,
+                rname,
+                Serial(serial),
+                Ttl::from_secs(refresh),
+                Ttl::from_secs(retry),
+                Ttl::from_secs(expire),
+                Ttl::from_secs(minimum),
+            )))
+        });
+    });
+}
+
+/// Largest text length n whose TXT encoding n + ceil(n/255) fits 65535.
+fn txt_max_text() -> usize {
+    let mut n = 65535usize;
+    while n + n.div_ceil(255) > 65535 {
+        n -= 1;
+    }
+    n
+}
+
+fn gen_txt(m: &Menus, s: &mut Sink) {
+    // (a) explicit character-string sequences through Txt::from_octets
+    let mut seqs: Vec<(&'static str, Vec<Vec<u8>>)> = vec![
+        ("one-empty", vec![vec![]]),
+        ("one-Ab", vec![b"Ab".to_vec()]),
+        ("one-255", vec![fill_alpha(255)]),
+        ("two", vec![b"x y".to_vec(), b"\"q\\".to_vec()]),
+    ];
+    if m.tier != Tier::Compact {
+        seqs.push(("none", vec![]));
+        seqs.push(("255+255", vec![fill_alpha(255), fill(255, 9)]));
+        seqs.push(("empty,empty,1", vec![vec![], vec![], vec![0]]));
+        // exactly 65535 octets: 255 strings of 255 octets + one of 254
+        let mut big: Vec<Vec<u8>> = (0..255).map(|k| fill(255, k as u8)).collect();
+        big.push(fill(254, 77));
+        seqs.push(("65535", big.clone()));
+        // 65536 octets: expected refusal
+        big.pop();
+        big.push(fill(255, 78));
+        seqs.push(("65536", big));
+    }
+    for (tag, seq) in seqs {
+        if !s.want() {
+            continue;
+        }
+        let mut r = Ref::new();
+        r.note(format!("from_octets:{tag}"));
+        for c in &seq {
+            r.len8("s", c);
+        }
+        let w = r.wire.clone();
+        s.offer(r, || rdata::Txt::from_octets(w).map(Rd::Txt).map_err(|e| format!("TxtError: {e}")));
+    }
+    // (b) the builder: text split into 255-octet chunks
+    let mut texts: Vec<usize> = vec![0, 1, 255];
+    if m.tier != Tier::Compact {
+        texts.extend([254, 256, 510, 511, txt_max_text(), txt_max_text() + 1]);
+    }
+    for n in texts {
+        if !s.want() {
+            continue;
+        }
+        let text = fill(n, 5);
+        let mut r = Ref::new();
+        r.note(format!("build_from_slice:{n}"));
+        if n == 0 {
+            // an empty text is one empty string (TXT needs >= 1 string)
+            r.len8("s", &[]);
+        }
+        for c in text.chunks(255) {
+            r.len8("s", c);
+        }
+        s.offer(r, || {
+            rdata::Txt::<Octs>::build_from_slice(&text).map(Rd::Txt).map_err(|e| format!("TxtAppendError: {e}"))
+        });
+    }
+    // (c) the builder fed piecewise: append_slice in pieces, append_charstr
+    if m.tier != Tier::Compact {
+        let plans: Vec<(&'static str, Vec<(bool, usize)>)> = vec![
+            // (is_charstr, len)
+            ("slice200+slice55", vec![(false, 200), (false, 55)]),
+            ("slice200+slice56", vec![(false, 200), (false, 56)]),
+            ("slice255+slice1", vec![(false, 255), (false, 1)]),
+            ("slice10+cs3+slice4", vec![(false, 10), (true, 3), (false, 4)]),
+            ("cs0+cs255", vec![(true, 0), (true, 255)]),
+            ("slice300+cs0", vec![(false, 300), (true, 0)]),
+            ("slice0+slice0", vec![(false, 0), (false, 0)]),
+        ];
+        for (tag, plan) in plans {
+            if !s.want() {
+                continue;
+            }
+            // reference: slices concatenate into a run that is chunked at
+            // 255; a charstr closes the run and stands alone
+            let mut r = Ref::new();
+            r.note(format!("builder:{tag}"));
+            let mut strings: Vec<Vec<u8>> = Vec::new();
+            let mut run: Option<Vec<u8>> = None;
+            let mut k = 0u8;
+            let mut pieces: Vec<(bool, Vec<u8>)> = Vec::new();
+            for (is_cs, n) in &plan {
+                k += 1;
+                let b = fill(*n, k);
+                pieces.push((*is_cs, b.clone()));
+                if *is_cs {
+                    if let Some(run) = run.take() {
+                        for c in run.chunks(255) {
+                            strings.push(c.to_vec());
+                        }
+                    }
+                    strings.push(b);
+                } else if !b.is_empty() {
+                    run.get_or_insert_with(Vec::new).extend_from_slice(&b);
+                }
+            }
+            if let Some(run) = run.take() {
+                for c in run.chunks(255) {
+                    strings.push(c.to_vec());
+                }
+            }
+            if strings.is_empty() {
+                strings.push(vec![]);
+            }
+            for c in &strings {
+                r.len8("s", c);
+            }
+            s.offer(r, || {
+                let mut b = rdata::rfc1035::TxtBuilder::<Vec<u8>>::new();
+                for (is_cs, p) in &pieces {
+                    if *is_cs {
+                        b.append_charstr(&cs(p)?).map_err(|e| format!("TxtAppendError: {e}"))?;
+                    } else {
+                        b.append_slice(p).map_err(|e| format!("TxtAppendError: {e}"))?;
+                    }
+                }
+                b.finish().map(Rd::Txt).map_err(|e| format!("TxtAppendError: {e}"))
+            });
+        }
+    }
+}
+
+fn gen_hinfo(m: &Menus, s: &mut Sink) {
+    let mut cs_menu = m.charstrs(2);
+    if m.tier != Tier::Compact {
+        cs_menu.push(fill_alpha(256)); // expected CharStrError
+    }
+    prod(&[cs_menu.len(), cs_menu.len()], |i| {
+        if !s.want() {
+            return;
+        }
+        let mut r = Ref::new();
+        let a = r.len8("cpu", &cs_menu[i[0]]);
+        let b = r.len8("os", &cs_menu[i[1]]);
+        s.offer(r, || Ok(Rd::Hinfo(rdata::Hinfo::new(cs(&a)?, cs(&b)?))));
+    });
+}
+
+fn gen_null(m: &Menus, s: &mut Sink) {
+    for l in m.lens(1) {
+        if !s.want() {
+            continue;
+        }
+        let n = Ref::resolve(l, 0);
+        let mut r = Ref::new();
+        let d = r.raw("data", &fill(n, 1));
+        s.offer(r, || rdata::Null::from_octets(d).map(Rd::Null).map_err(es));
+    }
+}
+
+fn gen_unknown(m: &Menus, s: &mut Sink, rtype: u16) {
+    for l in m.lens(1) {
+        if !s.want() {
+            continue;
+        }
+        let n = Ref::resolve(l, 0);
+        let mut r = Ref::new();
+        let d = r.raw("data", &fill(n, 2));
+        s.offer(r, || UnknownRecordData::from_octets(Rtype::from_int(rtype), d).map(Rd::Unknown).map_err(es));
+    }
+}
+
+fn gen_srv(m: &Menus, s: &mut Sink) {
+    let (us, ns) = (m.u16s(4), m.names(4));
+    prod(&[us.len(), us.len(), us.len(), ns.len()], |i| {
+        if !s.want() {
+            return;
+        }
+        let mut r = Ref::new();
+        let p = r.u16("prio", us[i[0]]);
+        let w = r.u16("weight", us[i[1]]);
+        let port = r.u16("port", us[i[2]]);
+        let t = r.name("target", &ns[i[3]]);
+        s.offer(r, || Ok(Rd::Srv(rdata::Srv::new(p, w, port, t))));
+    });
+}
+
+fn gen_naptr(m: &Menus, s: &mut Sink) {
+    let (us, ns) = (m.u16s(6), m.names(6));
+    let mut cm = m.charstrs(6);
+    let with_long = m.tier != Tier::Compact;
+    if with_long {
+        cm.push(fill_alpha(256)); // expected CharStrError
+    }
+    prod(&[us.len(), us.len(), cm.len(), cm.len(), cm.len(), ns.len()], |i| {
+        if !s.want() {
+            return;
+        }
+        let mut r = Ref::new();
+        let o = r.u16("order", us[i[0]]);
+        let p = r.u16("pref", us[i[1]]);
+        let f = r.len8("flags", &cm[i[2]]);
+        let sv = r.len8("services", &cm[i[3]]);
+        let re = r.len8("regexp", &cm[i[4]]);
+        let n = r.name("replacement", &ns[i[5]]);
+        s.offer(r, || Ok(Rd::Naptr(rdata::Naptr::new(o, p, cs(&f)?, cs(&sv)?, cs(&re)?, n))));
+    });
+}
+
+fn gen_caa(m: &Menus, s: &mut Sink) {
+    let fl = m.u8s(3);
+    // (tag octets, via CharStr?) — both tag constructors
+    let mut tags: Vec<(Vec<u8>, bool)> = vec![(b"issue".to_vec(), false), (b"IssueWild9".to_vec(), true)];
+    if m.tier != Tier::Compact {
+        tags.push((vec![], false));
+        tags.push((b"a".to_vec(), true));
+        tags.push((fill_alpha(255), false));
+        tags.push((fill_alpha(255), true));
+        tags.push((fill_alpha(256), false)); // from_octets: must be refused
+        tags.push((fill_alpha(256), true)); // via CharStr: CharStrError
+        tags.push((b"a-b".to_vec(), false)); // not alphanumeric: refused
+    }
+    let lens = m.lens(3);
+    prod(&[fl.len(), tags.len(), lens.len()], |i| {
+        if !s.want() {
+            return;
+        }
+        let (tag, via_cs) = tags[i[1]].clone();
+        let mut r = Ref::new();
+        let f = r.u8("flags", fl[i[0]]);
+        let t = r.len8(if via_cs { "tag(new)" } else { "tag(from_octets)" }, &tag);
+        let n = Ref::resolve(lens[i[2]], 1 + 1 + tag.len().min(255));
+        let v = r.raw("value", &fill(n, 3));
+        s.offer(r, || {
+            let tag = if via_cs {
+                rdata::caa::CaaTag::new(cs(&t)?).map_err(es)?
+            } else {
+                rdata::caa::CaaTag::from_octets(t).map_err(es)?
+            };
+            Ok(Rd::Caa(rdata::Caa::new(rdata::caa::CaaFlags::new(f), tag, v)))
+        });
+    });
+}
+
+fn gen_ds(m: &Menus, s: &mut Sink, cds: bool) {
+    let (kt, al, lens) = (m.u16s(4), m.u8s(4), m.lens(4));
+    prod(&[kt.len(), al.len(), al.len(), lens.len()], |i| {
+        if !s.want() {
+            return;
+        }
+        let mut r = Ref::new();
+        let k = r.u16("keytag", kt[i[0]]);
+        let a = r.u8("alg", al[i[1]]);
+        let dt = r.u8("digtype", al[i[2]]);
+        let d = r.raw("digest", &fill(Ref::resolve(lens[i[3]], 4), 4));
+        s.offer(r, || {
+            let (a, dt) = (SecurityAlgorithm::from_int(a), DigestAlgorithm::from_int(dt));
+            if cds {
+                rdata::Cds::new(k, a, dt, d).map(Rd::Cds).map_err(es)
+            } else {
+                rdata::Ds::new(k, a, dt, d).map(Rd::Ds).map_err(es)
+            }
+        });
+    });
+}
+
+fn gen_dnskey(m: &Menus, s: &mut Sink, cdnskey: bool) {
+    let (fl, pr, lens) = (m.u16s(4), m.u8s(4), m.lens(4));
+    prod(&[fl.len(), pr.len(), pr.len(), lens.len()], |i| {
+        if !s.want() {
+            return;
+        }
+        let mut r = Ref::new();
+        let f = r.u16("flags", fl[i[0]]);
+        let p = r.u8("proto", pr[i[1]]);
+        let a = r.u8("alg", pr[i[2]]);
+        let k = r.raw("key", &fill(Ref::resolve(lens[i[3]], 4), 5));
+        s.offer(r, || {
+            let a = SecurityAlgorithm::from_int(a);
+            if cdnskey {
+                rdata::Cdnskey::new(f, p, a, k).map(Rd::Cdnskey).map_err(es)
+            } else {
+                rdata::Dnskey::new(f, p, a, k).map(Rd::Dnskey).map_err(es)
+            }
+        });
+    });
+}
+
+fn gen_rrsig(m: &Menus, s: &mut Sink) {
+    let (u16s, u8s, u32s, ns, lens) = (m.u16s(9), m.u8s(9), m.u32s(9), m.names(9), m.lens(9));
+    prod(
+        &[u16s.len(), u8s.len(), u8s.len(), u32s.len(), u32s.len(), u32s.len(), u16s.len(), ns.len(), lens.len()],
+        |i| {
+            if !s.want() {
+                return;
+            }
+            let mut r = Ref::new();
+            let tc = r.u16("covered", u16s[i[0]]);
+            let a = r.u8("alg", u8s[i[1]]);
+            let l = r.u8("labels", u8s[i[2]]);
+            let ttl = r.u32("ottl", u32s[i[3]]);
+            let exp = r.u32("exp", u32s[i[4]]);
+            let inc = r.u32("inc", u32s[i[5]]);
+            let kt = r.u16("keytag", u16s[i[6]]);
+            let nspec = &ns[i[7]];
+            let n = r.name("signer", nspec);
+            let sig = r.raw("sig", &fill(Ref::resolve(lens[i[8]], 18 + nspec.wire().len()), 6));
+            s.offer(r, || {
+                rdata::Rrsig::new(
+                    Rtype::from_int(tc),
+                    SecurityAlgorithm::from_int(a),
+                    l,
+                    Ttl::from_secs(ttl),
+                    rdata::dnssec::Timestamp::from(exp),
+                    rdata::dnssec::Timestamp::from(inc),
+                    kt,
+                    n,
+                    sig,
+                )
+                .map(Rd::Rrsig)
+                .map_err(es)
+            });
+        },
+    );
+}
+
+fn mk_bitmap(types: &[u16]) -> rdata::dnssec::RtypeBitmap<Octs> {
+    let mut b = rdata::dnssec::RtypeBitmapBuilder::<Vec<u8>>::new_vec();
+    for t in types {
+        b.add(Rtype::from_int(*t)).expect("vec");
+    }
+    b.finalize()
+}
+
+/// Insertion orders for the bitmap builder: as listed and reversed.
+fn bitmap_orders(m: &Menus) -> Vec<(Vec<u16>, &'static str)> {
+    let mut out = Vec::new();
+    for b in m.bitmaps() {
+        out.push((b.clone(), "fwd"));
+        if b.len() > 1 && m.tier != Tier::Compact {
+            let mut rev = b.clone();
+            rev.reverse();
+            out.push((rev, "rev"));
+        }
+    }
+    out
+}
+
+fn gen_nsec(m: &Menus, s: &mut Sink) {
+    let (ns, bm) = (m.names(2), bitmap_orders(m));
+    prod(&[ns.len(), bm.len()], |i| {
+        if !s.want() {
+            return;
+        }
+        let mut r = Ref::new();
+        let n = r.name("next", &ns[i[0]]);
+        let (types, ord) = &bm[i[1]];
+        r.raw("bitmap", &bitmap_wire(types));
+        r.note(format!("types={types:?}/{ord}"));
+        s.offer(r, || Ok(Rd::Nsec(rdata::Nsec::new(n, mk_bitmap(types)))));
+    });
+}
+
+fn len8_menu(m: &Menus, nfields: usize) -> Vec<usize> {
+    if m.tier == Tier::Compact {
+        vec![0, 4]
+    } else if m.reduced(nfields) {
+        vec![0, 255]
+    } else {
+        vec![0, 1, 255, 256]
+    }
+}
+
+fn gen_nsec3(m: &Menus, s: &mut Sink) {
+    let (u8s, its, ls, bm) = (m.u8s(6), m.u16s(6), len8_menu(m, 6), bitmap_orders(m));
+    prod(&[u8s.len(), u8s.len(), its.len(), ls.len(), ls.len(), bm.len()], |i| {
+        if !s.want() {
+            return;
+        }
+        let mut r = Ref::new();
+        let a = r.u8("hashalg", u8s[i[0]]);
+        let f = r.u8("flags", u8s[i[1]]);
+        let it = r.u16("iter", its[i[2]]);
+        let salt = r.len8("salt", &fill(ls[i[3]], 7));
+        let next = r.len8("next", &fill(ls[i[4]], 8));
+        let (types, ord) = &bm[i[5]];
+        r.raw("bitmap", &bitmap_wire(types));
+        r.note(format!("types={types:?}/{ord}"));
+        s.offer(r, || {
+            Ok(Rd::Nsec3(rdata::Nsec3::new(
+                Nsec3HashAlgorithm::from_int(a),
+                f,
+                it,
+                rdata::nsec3::Nsec3Salt::from_octets(salt).map_err(es)?,
+                rdata::nsec3::OwnerHash::from_octets(next).map_err(es)?,
+                mk_bitmap(types),
+            )))
+        });
+    });
+}
+
+fn gen_nsec3param(m: &Menus, s: &mut Sink) {
+    let (u8s, its, ls) = (m.u8s(4), m.u16s(4), len8_menu(m, 4));
+    prod(&[u8s.len(), u8s.len(), its.len(), ls.len()], |i| {
+        if !s.want() {
+            return;
+        }
+        let mut r = Ref::new();
+        let a = r.u8("hashalg", u8s[i[0]]);
+        let f = r.u8("flags", u8s[i[1]]);
+        let it = r.u16("iter", its[i[2]]);
+        let salt = r.len8("salt", &fill(ls[i[3]], 7));
+        s.offer(r, || {
+            Ok(Rd::Nsec3param(rdata::Nsec3param::new(
+                Nsec3HashAlgorithm::from_int(a),
+                f,
+                it,
+                rdata::nsec3::Nsec3Salt::from_octets(salt).map_err(es)?,
+            )))
+        });
+    });
+}
+
+fn gen_tlsa(m: &Menus, s: &mut Sink) {
+    let (u8s, lens) = (m.u8s(4), m.lens(4));
+    prod(&[u8s.len(), u8s.len(), u8s.len(), lens.len()], |i| {
+        if !s.want() {
+            return;
+        }
+        let mut r = Ref::new();
+        let u = r.u8("usage", u8s[i[0]]);
+        let se = r.u8("selector", u8s[i[1]]);
+        let mt = r.u8("mtype", u8s[i[2]]);
+        let d = r.raw("data", &fill(Ref::resolve(lens[i[3]], 3), 9));
+        s.offer(r, || Ok(Rd::Tlsa(rdata::Tlsa::new(u.into(), se.into(), mt.into(), d))));
+    });
+}
+
+fn gen_sshfp(m: &Menus, s: &mut Sink) {
+    let (u8s, lens) = (m.u8s(3), m.lens(3));
+    prod(&[u8s.len(), u8s.len(), lens.len()], |i| {
+        if !s.want() {
+            return;
+        }
+        let mut r = Ref::new();
+        let a = r.u8("alg", u8s[i[0]]);
+        let t = r.u8("fptype", u8s[i[1]]);
+        let d = r.raw("fp", &fill(Ref::resolve(lens[i[2]], 2), 10));
+        s.offer(r, || Ok(Rd::Sshfp(rdata::Sshfp::new(a.into(), t.into(), d))));
+    });
+}
+
+fn gen_openpgpkey(m: &Menus, s: &mut Sink) {
+    for l in m.lens(1) {
+        if !s.want() {
+            continue;
+        }
+        let mut r = Ref::new();
+        let d = r.raw("key", &fill(Ref::resolve(l, 0), 11));
+        s.offer(r, || Ok(Rd::Openpgpkey(rdata::Openpgpkey::new(d))));
+    }
+}
+
+fn gen_zonemd(m: &Menus, s: &mut Sink) {
+    let (u32s, u8s) = (m.u32s(4), m.u8s(4));
+    let mut lens = m.lens(4);
+    if m.tier != Tier::Compact {
+        // RFC 8976 2.2.4: the digest MUST NOT be shorter than 12 octets
+        lens.push(Len::Fixed(11));
+        lens.push(Len::Fixed(12));
+    } else {
+        lens = vec![Len::Fixed(48)];
+    }
+    prod(&[u32s.len(), u8s.len(), u8s.len(), lens.len()], |i| {
+        if !s.want() {
+            return;
+        }
+        let mut r = Ref::new();
+        let se = r.u32("serial", u32s[i[0]]);
+        let sc = r.u8("scheme", u8s[i[1]]);
+        let a = r.u8("alg", u8s[i[2]]);
+        let d = r.raw("digest", &fill(Ref::resolve(lens[i[3]], 6), 12));
+        s.offer(r, || Ok(Rd::Zonemd(rdata::Zonemd::new(Serial(se), sc.into(), a.into(), d))));
+    });
+}
+
+fn gen_ipseckey(m: &Menus, s: &mut Sink) {
+    use rdata::ipseckey::IpseckeyGateway as Gw;
+    #[derive(Clone)]
+    enum G {
+        None,
+        V4([u8; 4]),
+        V6([u8; 16]),
+        Name(NameSpec),
+    }
+    let mut gws = vec![G::None];
+    gws.extend(addrs4(m).into_iter().map(G::V4));
+    gws.extend(addrs6(m).into_iter().map(G::V6));
+    gws.extend(m.names(4).into_iter().map(G::Name));
+    let (u8s, lens) = (m.u8s(4), m.lens(4));
+    prod(&[u8s.len(), u8s.len(), gws.len(), lens.len()], |i| {
+        if !s.want() {
+            return;
+        }
+        let mut r = Ref::new();
+        let p = r.u8("prec", u8s[i[0]]);
+        let alg = u8s[i[1]];
+        let g = gws[i[2]].clone();
+        let gt = match g {
+            G::None => 0,
+            G::V4(_) => 1,
+            G::V6(_) => 2,
+            G::Name(_) => 3,
+        };
+        r.u8("gwtype", gt);
+        r.u8("alg", alg);
+        let gw: Gw<Nm> = match &g {
+            G::None => Gw::None,
+            G::V4(a) => {
+                r.raw("gw4", a);
+                Gw::Ipv4(rdata::A::new(Ipv4Addr::from(*a)))
+            }
+            G::V6(a) => {
+                r.raw("gw6", a);
+                Gw::Ipv6(rdata::Aaaa::new(Ipv6Addr::from(*a)))
+            }
+            G::Name(n) => Gw::Name(r.name("gwname", n)),
+        };
+        let rest = r.wire.len();
+        let k = r.raw("key", &fill(Ref::resolve(lens[i[3]], rest), 13));
+        s.offer(r, || Ok(Rd::Ipseckey(rdata::Ipseckey::new(p, alg.into(), gw, k))));
+    });
+}
+
+fn gen_tsig(m: &Menus, s: &mut Sink) {
+    let (ns, u16s, lens) = (m.names(7), m.u16s(7), m.lens(7));
+    let times: Vec<u64> = match m.tier {
+        Tier::Compact => vec![1_700_000_000],
+        Tier::Quick => vec![0, 0x1_0000_0000, 0xFFFF_FFFF_FFFF],
+        Tier::Thorough => vec![0, 1, 0x1_0000_0000, 0xFFFF_FFFF_FFFF, 0x1_0000_0000_0000],
+    };
+    prod(&[ns.len(), times.len(), u16s.len(), lens.len(), u16s.len(), u16s.len(), lens.len()], |i| {
+        if !s.want() {
+            return;
+        }
+        let nspec = &ns[i[0]];
+        let fixed = nspec.wire().len() + 16;
+        let (lm, lo) = (lens[i[3]], lens[i[6]]);
+        // a Max/MaxPlus1 field gets the whole budget left by the fixed
+        // part and by the other field's *fixed* length
+        let fixlen = |l: Len| if let Len::Fixed(n) = l { n } else { 0 };
+        let mac_len = Ref::resolve(lm, fixed + fixlen(lo));
+        let other_len = match lo {
+            Len::Fixed(n) => n,
+            _ => Ref::resolve(lo, fixed + mac_len).min(Ref::resolve(lo, fixed + fixlen(lm))),
+        };
+        let mut r = Ref::new();
+        let alg = r.name("alg", nspec);
+        let t = r.u48("time", times[i[1]]);
+        let fudge = r.u16("fudge", u16s[i[2]]);
+        let mac = r.len16("mac", &fill(mac_len, 14));
+        let id = r.u16("origid", u16s[i[4]]);
+        let err = r.u16("error", u16s[i[5]]);
+        let other = r.len16("other", &fill(other_len, 15));
+        s.offer(r, || {
+            rdata::Tsig::new(
+                alg,
+                rdata::tsig::Time48::from_u64(t),
+                fudge,
+                mac,
+                id,
+                domain::base::iana::TsigRcode::from_int(err),
+                other,
+            )
+            .map(Rd::Tsig)
+            .map_err(es)
+        });
+    });
+}
+//------------ SVCB / HTTPS ----------------------------------------------------
+
+/// One service parameter: key, reference value octets, how to push it.
+#[derive(Clone)]
+pub struct SvcParamSpec {
+    pub tag: String,
+    pub key: u16,
+    pub value: Vec<u8>,
+    kind: SvcKind,
+}
+
+#[derive(Clone)]
+enum SvcKind {
+    Mandatory(Vec<u16>),
+    Alpn(Vec<Vec<u8>>),
+    NoDefaultAlpn,
+    Port(u16),
+    Ech(Vec<u8>),
+    V4(Vec<[u8; 4]>),
+    V6(Vec<[u8; 16]>),
+    DohPath(Vec<u8>),
+    Ohttp,
+    TlsGroups(Vec<u16>),
+    Unknown(Vec<u8>),
+}
+
+impl SvcParamSpec {
+    fn new(kind: SvcKind, key: u16, tag: &str) -> SvcParamSpec {
+        let value: Vec<u8> = match &kind {
+            SvcKind::Mandatory(k) | SvcKind::TlsGroups(k) => k.iter().flat_map(|k| k.to_be_bytes()).collect(),
+            SvcKind::Alpn(ps) => ps.iter().flat_map(|p| std::iter::once(p.len() as u8).chain(p.iter().cloned())).collect(),
+            SvcKind::NoDefaultAlpn | SvcKind::Ohttp => vec![],
+            SvcKind::Port(p) => p.to_be_bytes().to_vec(),
+            SvcKind::Ech(b) | SvcKind::DohPath(b) | SvcKind::Unknown(b) => b.clone(),
+            SvcKind::V4(a) => a.iter().flatten().cloned().collect(),
+            SvcKind::V6(a) => a.iter().flatten().cloned().collect(),
+        };
+        SvcParamSpec { tag: tag.to_string(), key, value, kind }
+    }
+
+    /// Push this parameter through the library's typed value API.
+    pub fn push(&self, b: &mut rdata::svcb::SvcParamsBuilder<Vec<u8>>) -> Result<(), String> {
+        use rdata::svcb::value::*;
+        use rdata::svcb::UnknownSvcParam;
+        use domain::base::iana::SvcParamKey;
+        match &self.kind {
+            SvcKind::Mandatory(k) => {
+                let v = Mandatory::<Vec<u8>>::from_keys(k.iter().map(|k| SvcParamKey::from_int(*k))).map_err(es)?;
+                b.push(&v).map_err(es)
+            }
+            SvcKind::Alpn(ps) => {
+                let mut ab = AlpnBuilder::<Vec<u8>>::empty();
+                for p in ps {
+                    ab.push(p).map_err(es)?;
+                }
+                b.push(&ab.freeze()).map_err(es)
+            }
+            SvcKind::NoDefaultAlpn => b.push(&NoDefaultAlpn).map_err(es),
+            SvcKind::Port(p) => b.push(&Port::new(*p)).map_err(es),
+            SvcKind::Ech(e) => b.push(&Ech::from_octets(e.clone()).map_err(es)?).map_err(es),
+            SvcKind::V4(a) => {
+                let v = Ipv4Hint::<Vec<u8>>::from_addrs(a.iter().map(|a| Ipv4Addr::from(*a))).map_err(es)?;
+                b.push(&v).map_err(es)
+            }
+            SvcKind::V6(a) => {
+                let v = Ipv6Hint::<Vec<u8>>::from_addrs(a.iter().map(|a| Ipv6Addr::from(*a))).map_err(es)?;
+                b.push(&v).map_err(es)
+            }
+            SvcKind::DohPath(p) => b.push(&DohPath::from_octets(p.clone()).map_err(es)?).map_err(es),
+            SvcKind::Ohttp => b.push(&Ohttp).map_err(es),
+            SvcKind::TlsGroups(k) => {
+                let v = TlsSupportedGroups::<Vec<u8>>::from_keys(k.iter().cloned()).map_err(es)?;
+                b.push(&v).map_err(es)
+            }
+            SvcKind::Unknown(v) => {
+                let v = UnknownSvcParam::new(SvcParamKey::from_int(self.key), v.clone()).map_err(es)?;
+                b.push(&v).map_err(es)
+            }
+        }
+    }
+}
+
+/// Parameter sets (push order as listed): every parameter type alone with
+/// its boundary values, unknown keys, combinations in sorted / reversed /
+/// middle-insert push order, duplicates (expected refusal), maximum size.
+pub fn svc_param_sets(tier: Tier) -> Vec<Vec<SvcParamSpec>> {
+    use SvcKind::*;
+    let p = SvcParamSpec::new;
+    let mut singles = vec![
+        p(Mandatory(vec![1]), 0, "mandatory[alpn]"),
+        p(Alpn(vec![b"h2".to_vec()]), 1, "alpn[h2]"),
+        p(NoDefaultAlpn, 2, "no-default-alpn"),
+        p(Port(443), 3, "port443"),
+        p(V4(vec![[192, 0, 2, 1]]), 4, "ipv4hint1"),
+        p(Ech(vec![1, 2, 3]), 5, "ech3"),
+        p(V6(vec![[0x20; 16]]), 6, "ipv6hint1"),
+        p(DohPath(b"/dns-query{?dns}".to_vec()), 7, "dohpath"),
+        p(Ohttp, 8, "ohttp"),
+        p(TlsGroups(vec![29, 23]), 9, "tlsgroups"),
+        p(Unknown(vec![0xde, 0xad]), 65280, "key65280"),
+    ];
+    let mut sets: Vec<Vec<SvcParamSpec>> = vec![vec![]];
+    if tier == Tier::Compact {
+        sets.push(vec![singles[1].clone(), singles[3].clone()]);
+        sets.push(vec![singles[3].clone(), singles[1].clone(), singles[4].clone()]);
+        return sets;
+    }
+    singles.extend([
+        p(Mandatory(vec![]), 0, "mandatory[]"),
+        p(Mandatory(vec![1, 3, 65535]), 0, "mandatory[1,3,65535]"),
+        p(Alpn(vec![]), 1, "alpn[]"),
+        p(Alpn(vec![b"h3".to_vec(), fill_alpha(255)]), 1, "alpn[h3,255B]"),
+        p(Alpn(vec![fill_alpha(256)]), 1, "alpn[256B]"), // refusal
+        p(Alpn(vec![vec![]]), 1, "alpn[empty-id]"),      // refusal
+        p(Port(0), 3, "port0"),
+        p(Port(65535), 3, "port65535"),
+        p(Port(256), 3, "port256"),
+        p(V4(vec![]), 4, "ipv4hint0"),
+        p(V4(vec![[0; 4], [255; 4], [1, 2, 3, 4]]), 4, "ipv4hint3"),
+        p(Ech(vec![]), 5, "ech0"),
+        p(Ech(fill(255, 20)), 5, "ech255"),
+        p(V6(vec![]), 6, "ipv6hint0"),
+        p(V6(vec![[0; 16], [255; 16]]), 6, "ipv6hint2"),
+        p(DohPath(vec![]), 7, "dohpath0"),
+        p(TlsGroups(vec![]), 9, "tlsgroups0"),
+        p(TlsGroups(vec![0, 65535]), 9, "tlsgroups[0,65535]"),
+        p(Unknown(vec![]), 10, "key10-empty"),
+        p(Unknown(fill(255, 21)), 255, "key255"),
+        p(Unknown(vec![7]), 256, "key256"),
+        p(Unknown(vec![]), 65535, "key65535"),
+        // a known key pushed as unknown data
+        p(Unknown(vec![0x01, 0xbb]), 3, "key3-as-unknown"),
+    ]);
+    for s in &singles {
+        sets.push(vec![s.clone()]);
+    }
+    let (alpn, port, v4, unk, ech, man) = (
+        singles[1].clone(),
+        singles[3].clone(),
+        singles[4].clone(),
+        singles[10].clone(),
+        singles[5].clone(),
+        singles[0].clone(),
+    );
+    // all 6 push orders of three parameters, all 2 of two
+    let tri = [alpn.clone(), port.clone(), unk.clone()];
+    for perm in [[0, 1, 2], [0, 2, 1], [1, 0, 2], [1, 2, 0], [2, 0, 1], [2, 1, 0]] {
+        sets.push(perm.iter().map(|&k| tri[k].clone()).collect());
+    }
+    sets.push(vec![man.clone(), alpn.clone()]);
+    sets.push(vec![alpn.clone(), man.clone()]);
+    // duplicate key: expected refusal
+    sets.push(vec![port.clone(), alpn.clone(), port.clone()]);
+    // four parameters pushed from the middle outwards
+    sets.push(vec![v4.clone(), port.clone(), ech.clone(), alpn.clone(), unk.clone()]);
+    // every defined key at once, reverse order
+    let mut all: Vec<SvcParamSpec> = singles[..11].to_vec();
+    all.reverse();
+    sets.push(all);
+    if tier == Tier::Thorough {
+        // maximal sizes: one value of 65535 octets (cannot fit any record),
+        // and one that fills the RDATA exactly (priority 2 + root 1 + 4)
+        sets.push(vec![p(Unknown(fill(65535, 22)), 65281, "key65281-65535B")]);
+        sets.push(vec![p(Unknown(fill(65536, 22)), 65281, "key65281-65536B")]);
+        sets.push(vec![p(Unknown(fill(65535 - 7, 23)), 65281, "key65281-fill-root")]);
+        sets.push(vec![p(Unknown(fill(65535 - 6, 23)), 65281, "key65281-fill-root+1")]);
+        sets.push(vec![p(Ech(fill(65535 - 7, 24)), 5, "ech-fill-root")]);
+    }
+    sets
+}
+
+/// Reference encoding of a parameter set: ascending key order.
+pub fn svc_params_wire(set: &[SvcParamSpec]) -> Vec<u8> {
+    let mut sorted: Vec<&SvcParamSpec> = set.iter().collect();
+    sorted.sort_by_key(|p| p.key);
+    let mut out = Vec::new();
+    for p in sorted {
+        out.extend_from_slice(&p.key.to_be_bytes());
+        out.extend_from_slice(&(p.value.len() as u16).to_be_bytes());
+        out.extend_from_slice(&p.value);
+    }
+    out
+}
+
+fn gen_svcb(m: &Menus, s: &mut Sink, https: bool) {
+    let (prios, ns, sets) = (m.u16s(3), m.names(3), svc_param_sets(m.tier));
+    prod(&[prios.len(), ns.len(), sets.len()], |i| {
+        if !s.want() {
+            return;
+        }
+        let set = &sets[i[2]];
+        let mut r = Ref::new();
+        let prio = r.u16("prio", prios[i[0]]);
+        let target = r.name("target", &ns[i[1]]);
+        for p in set {
+            if p.value.len() > 65535 {
+                r.unrepresentable = Some(format!("{} longer than 65535 octets", p.tag));
+            }
+            if let SvcKind::Alpn(ids) = &p.kind {
+                if ids.iter().any(|i| i.len() > 255) {
+                    r.unrepresentable = Some("alpn-id longer than 255 octets".into());
+                }
+            }
+        }
+        let mut keys: Vec<u16> = set.iter().map(|p| p.key).collect();
+        keys.sort();
+        if keys.windows(2).any(|w| w[0] == w[1]) {
+            r.unrepresentable = Some("duplicate SvcParamKey".into());
+        }
+        r.lit(&svc_params_wire(set));
+        r.note(format!("params=[{}]", set.iter().map(|p| p.tag.as_str()).collect::<Vec<_>>().join(";")));
+        s.offer(r, || {
+            let mut b = rdata::svcb::SvcParamsBuilder::<Vec<u8>>::empty();
+            for p in set {
+                p.push(&mut b)?;
+            }
+            let params: rdata::svcb::SvcParams<Vec<u8>> = b.freeze().map_err(es)?;
+            if https {
+                rdata::Https::new(prio, target, params).map(Rd::Https).map_err(es)
+            } else {
+                rdata::Svcb::new(prio, target, params).map(Rd::Svcb).map_err(es)
+            }
+        });
+    });
+}
+
+//------------ EDNS options --------------------------------------------------
+
+/// Option value type used by the generator.
+pub type OptVal = domain::base::opt::AllOptData<Octs, Nm>;
+
+/// One EDNS option: code, reference option data, library value.
+#[derive(Clone)]
+pub struct OptItem {
+    pub tag: String,
+    pub code: u16,
+    /// reference OPTION-DATA (without code and length)
+    pub data: Vec<u8>,
+    /// the library value (None: the constructor refused, see `refused`)
+    pub val: Option<OptVal>,
+    pub refused: Option<String>,
+    /// true if `data` longer than 65535 (no wire representation)
+    pub unrepresentable: bool,
+}
+
+fn opt_item(tag: &str, code: u16, data: Vec<u8>, ctor: impl FnOnce() -> Result<OptVal, String>) -> OptItem {
+    let (val, refused) = match guard(ctor) {
+        Ok(Ok(v)) => (Some(v), None),
+        Ok(Err(e)) => (None, Some(e)),
+        Err(p) => (None, Some(format!("PANIC: {p}"))),
+    };
+    OptItem { tag: tag.to_string(), code, unrepresentable: data.len() > 65535, data, val, refused }
+}
+
+/// Reference encoding of a client-subnet option (RFC 7871 §6): the address
+/// is truncated to the source prefix; prefixes above the address length
+/// are clamped (the library's constructor documents the same clamping).
+fn subnet_wire(src: u8, scope: u8, addr: &[u8]) -> Vec<u8> {
+    let max = (addr.len() * 8) as u8;
+    let (src, scope) = (src.min(max), scope.min(max));
+    let nbytes = (src as usize).div_ceil(8);
+    let mut a = addr[..nbytes].to_vec();
+    if src % 8 != 0 {
+        let last = a.len() - 1;
+        a[last] &= 0xFFu8 << (8 - src % 8);
+    }
+    let mut out = vec![0, if addr.len() == 4 { 1 } else { 2 }, src, scope];
+    out.extend(a);
+    out
+}
+
+/// Every EDNS option type with boundary values.
+pub fn opt_items(tier: Tier) -> Vec<OptItem> {
+    use domain::base::iana::{ExtendedErrorCode, OptionCode};
+    use domain::base::opt::*;
+    use octseq::str::Str;
+    let mut v = Vec::new();
+    let compact = tier == Tier::Compact;
+    // DAU / DHU / N3U (RFC 6975): lists of one-octet algorithm codes
+    let alg_lists: Vec<Vec<u8>> = if compact {
+        vec![vec![8, 13]]
+    } else {
+        vec![vec![], vec![8], vec![8, 13], vec![0, 1, 255], fill(255, 1), fill(256, 2)]
+    };
+    for l in &alg_lists {
+        let l2 = l.clone();
+        v.push(opt_item(&format!("dau{}", l.len()), 5, l.clone(), move || {
+            Dau::<Octs>::from_sec_algs(l2.iter().map(|a| SecurityAlgorithm::from_int(*a))).map(OptVal::Dau).map_err(es)
+        }));
+        let l2 = l.clone();
+        v.push(opt_item(&format!("dhu{}", l.len()), 6, l.clone(), move || {
+            Dhu::<Octs>::from_sec_algs(l2.iter().map(|a| SecurityAlgorithm::from_int(*a))).map(OptVal::Dhu).map_err(es)
+        }));
+        let l2 = l.clone();
+        v.push(opt_item(&format!("n3u{}", l.len()), 7, l.clone(), move || {
+            N3u::<Octs>::from_sec_algs(l2.iter().map(|a| SecurityAlgorithm::from_int(*a))).map(OptVal::N3u).map_err(es)
+        }));
+        if !compact {
+            let l2 = l.clone();
+            v.push(opt_item(&format!("dau{}(from_octets)", l.len()), 5, l.clone(), move || {
+                Dau::<Octs>::from_octets(l2).map(OptVal::Dau).map_err(es)
+            }));
+        }
+    }
+    // CHAIN
+    for n in (Menus { tier }).names(1) {
+        let nm = n.name();
+        v.push(opt_item(&format!("chain:{}", n.tag), 13, n.wire(), move || Ok(OptVal::Chain(Chain::new(nm)))));
+    }
+    // COOKIE: client only, client + server of 8, 16, 32 octets
+    let srv_lens: Vec<Option<usize>> = if compact { vec![None, Some(16)] } else { vec![None, Some(8), Some(9), Some(16), Some(31), Some(32), Some(7), Some(33)] };
+    for sl in srv_lens {
+        let client: [u8; 8] = [1, 2, 3, 4, 5, 6, 7, 0xff];
+        let mut data = client.to_vec();
+        let server = sl.map(|n| fill(n, 30));
+        if let Some(s) = &server {
+            data.extend_from_slice(s);
+        }
+        v.push(opt_item(&format!("cookie:{sl:?}"), 10, data, move || {
+            Ok(OptVal::Cookie(Cookie::new(
+                cookie::ClientCookie::from_octets(client),
+                server.map(|s| cookie::ServerCookie::from_octets(&s)),
+            )))
+        }));
+    }
+    // EXPIRE
+    let mut exps: Vec<Option<u32>> = vec![None, Some(1)];
+    if !compact {
+        exps.extend([Some(0), Some(0x8000_0000), Some(u32::MAX)]);
+    }
+    for e in exps {
+        v.push(opt_item(&format!("expire:{e:?}"), 9, e.map(|e| e.to_be_bytes().to_vec()).unwrap_or_default(), move || {
+            Ok(OptVal::Expire(Expire::new(e)))
+        }));
+    }
+    // EXTENDED ERROR
+    let texts: Vec<Option<String>> = if compact {
+        vec![None, Some("bad".into())]
+    } else {
+        vec![None, Some(String::new()), Some("x".into()), Some("é\"\\ ;".into()), Some("t".repeat(255)), Some("u".repeat(65533)), Some("v".repeat(65534))]
+    };
+    let codes: Vec<u16> = if compact { vec![1] } else { vec![0, 1, 255, 256, 49152, 65535] };
+    for c in &codes {
+        for t in &texts {
+            if t.as_ref().map(|t| t.len() > 300).unwrap_or(false) && *c != 1 {
+                continue;
+            }
+            let mut data = c.to_be_bytes().to_vec();
+            if let Some(t) = t {
+                data.extend_from_slice(t.as_bytes());
+            }
+            let (c2, t2) = (*c, t.clone());
+            v.push(opt_item(&format!("ede:{c}:{:?}", t.as_ref().map(|t| t.len())), 15, data, move || {
+                ExtendedError::<Octs>::new(
+                    ExtendedErrorCode::from_int(c2),
+                    t2.map(|t| Str::from_utf8(t.into_bytes()).expect("utf8")),
+                )
+                .map(OptVal::ExtendedError)
+                .map_err(es)
+            }));
+        }
+    }
+    // TCP KEEPALIVE
+    let mut kas: Vec<Option<u16>> = vec![None, Some(100)];
+    if !compact {
+        kas.extend([Some(0), Some(1), Some(255), Some(256), Some(65535)]);
+    }
+    for k in kas {
+        v.push(opt_item(&format!("keepalive:{k:?}"), 11, k.map(|k| k.to_be_bytes().to_vec()).unwrap_or_default(), move || {
+            Ok(OptVal::TcpKeepalive(TcpKeepalive::new(k.map(Into::into))))
+        }));
+    }
+    // KEY TAG: list of 16-bit tags
+    let tag_lens: Vec<usize> = if compact { vec![2] } else { vec![0, 1, 2, 3, 4, 254, 65534, 65535, 65536] };
+    for n in tag_lens {
+        let d = fill(n, 31);
+        let d2 = d.clone();
+        v.push(opt_item(&format!("keytag:{n}B"), 14, d, move || KeyTag::from_octets(d2).map(OptVal::KeyTag).map_err(es)));
+    }
+    // NSID, PADDING, unknown codes: opaque octets
+    let op_lens: Vec<usize> = if compact { vec![0, 3] } else { vec![0, 1, 255, 65535, 65536] };
+    for n in &op_lens {
+        let d = fill(*n, 32);
+        let d2 = d.clone();
+        v.push(opt_item(&format!("nsid:{n}B"), 3, d.clone(), move || Nsid::from_octets(d2).map(OptVal::Nsid).map_err(es)));
+        let d2 = d.clone();
+        v.push(opt_item(&format!("padding:{n}B"), 12, d.clone(), move || Padding::from_octets(d2).map(OptVal::Padding).map_err(es)));
+        for code in if compact { vec![65001u16] } else { vec![0u16, 4, 16, 65001, 65535] } {
+            let d2 = d.clone();
+            v.push(opt_item(&format!("code{code}:{n}B"), code, d.clone(), move || {
+                UnknownOptData::new(OptionCode::from_int(code), d2).map(OptVal::Other).map_err(es)
+            }));
+        }
+    }
+    // CLIENT SUBNET
+    let a4 = [192u8, 0, 2, 0xff];
+    let mut a6 = [0u8; 16];
+    for (i, b) in a6.iter_mut().enumerate() {
+        *b = 0xf0 | i as u8;
+    }
+    let p4: Vec<u8> = if compact { vec![24] } else { vec![0, 1, 7, 8, 9, 24, 31, 32, 33, 255] };
+    let p6: Vec<u8> = if compact { vec![56] } else { vec![0, 1, 56, 64, 127, 128, 129, 255] };
+    let scopes: Vec<u8> = if compact { vec![0] } else { vec![0, 1, 255] };
+    for sc in &scopes {
+        for p in &p4 {
+            let (p, sc) = (*p, *sc);
+            v.push(opt_item(&format!("subnet4:{p}/{sc}"), 8, subnet_wire(p, sc, &a4), move || {
+                Ok(OptVal::ClientSubnet(ClientSubnet::new(p, sc, std::net::IpAddr::V4(Ipv4Addr::from(a4)))))
+            }));
+        }
+        for p in &p6 {
+            let (p, sc) = (*p, *sc);
+            v.push(opt_item(&format!("subnet6:{p}/{sc}"), 8, subnet_wire(p, sc, &a6), move || {
+                Ok(OptVal::ClientSubnet(ClientSubnet::new(p, sc, std::net::IpAddr::V6(Ipv6Addr::from(a6)))))
+            }));
+        }
+    }
+    v
+}
+
+/// Reference OPT RDATA of a list of options.
+pub fn opt_wire(items: &[&OptItem]) -> Vec<u8> {
+    let mut out = Vec::new();
+    for it in items {
+        out.extend_from_slice(&it.code.to_be_bytes());
+        out.extend_from_slice(&(it.data.len() as u16).to_be_bytes());
+        out.extend_from_slice(&it.data);
+    }
+    out
+}
+
+/// OPT record data: empty, every option alone, all small options together
+/// (forward and reverse), and pairs that fill the RDATA to 65535 / 65536.
+fn gen_opt(m: &Menus, s: &mut Sink) {
+    use domain::base::opt::Opt;
+    let items = opt_items(m.tier);
+    let usable: Vec<&OptItem> = items.iter().filter(|i| i.val.is_some()).collect();
+    let mut lists: Vec<Vec<&OptItem>> = vec![vec![]];
+    for it in &usable {
+        lists.push(vec![*it]);
+    }
+    let small: Vec<&OptItem> = usable.iter().cloned().filter(|i| i.data.len() <= 300).collect();
+    lists.push(small.clone());
+    let mut rev = small.clone();
+    rev.reverse();
+    lists.push(rev);
+    if m.tier != Tier::Compact {
+        // two options whose sum crosses the 65535 boundary
+        let pad = |n: usize| usable.iter().cloned().find(|i| i.code == 12 && i.data.len() == n);
+        if let (Some(big), Some(one), Some(zero)) = (pad(65535), pad(1), pad(0)) {
+            lists.push(vec![zero, big]); // 4 + 65539
+            lists.push(vec![one, one, one]);
+            let _ = big;
+        }
+        // exactly 65535: 4+255 + 4+n  -> n = 65272
+        let nsid255 = usable.iter().cloned().find(|i| i.code == 3 && i.data.len() == 255);
+        if let Some(n255) = nsid255 {
+            lists.push(vec![n255, n255]);
+        }
+    }
+    for list in lists {
+        if !s.want() {
+            continue;
+        }
+        let mut r = Ref::new();
+        r.note(format!("opts=[{}]", list.iter().map(|i| i.tag.as_str()).collect::<Vec<_>>().join(";")));
+        r.lit(&opt_wire(&list));
+        s.offer(r, || {
+            let mut o = Opt::<Vec<u8>>::empty();
+            for it in &list {
+                o.push(it.val.as_ref().unwrap()).map_err(es)?;
+            }
+            Ok(Rd::Opt(o))
+        });
+    }
+    // filler to exact sizes through Opt::from_octets / push of unknown data
+    if m.tier != Tier::Compact {
+        for total in [65535usize, 65536] {
+            if !s.want() {
+                continue;
+            }
+            let mut r = Ref::new();
+            r.note(format!("single-unknown-option-filling-{total}"));
+            let d = fill(total - 4, 40);
+            r.lit(&[0xfd, 0xe9]);
+            r.lit(&((total - 4) as u16).to_be_bytes());
+            r.lit(&d);
+            if total - 4 > 65535 {
+                r.unrepresentable = Some("option longer than 65535".into());
+            }
+            s.offer(r, || {
+                let mut o = Opt::<Vec<u8>>::empty();
+                let u = domain::base::opt::UnknownOptData::new(domain::base::iana::OptionCode::from_int(0xfde9), d).map_err(es)?;
+                o.push(&u).map_err(es)?;
+                Ok(Rd::Opt(o))
+            });
+        }
+    }
+}
 
 //------------ convenience API ------------------------------------------------
 
